@@ -105,13 +105,10 @@ class Concretiser:
             marks = sorted(rng.choice([[1], [2], [3], [1, 3], [1, 2], [2, 3], [1, 2, 3]]))
         self.plan[s] = dict(mbs=mbs, tag="msg-%d" % s, marks=marks)
         if self.proto == "smtp":
-            size = rng.choice([120, 700, 4000, 30000, 200000])
-            lines = ["Subject: msg-%d" % s, "From: Sender %d <sender%d@example.org>" % (s, s), "To: " + ", ".join(m + "@inbucket.test" for m in mbs), ""]
-            n = 0
-            while sum(len(x) + 2 for x in lines) < size:
-                n += 1
-                lines.append("line %d of message %d, padded to a realistic length with some text" % (n, s))
-            text = "\r\n".join(lines) + "\r\n"
+            size = rng.choice([120, 700, 4000, 30000, 120000])
+            head = "\r\n".join(["Subject: msg-%d" % s, "From: Sender %d <sender%d@example.org>" % (s, s), "To: " + ", ".join(m + "@inbucket.test" for m in mbs), "", ""])
+            line = "line of message %d, padded to a realistic length with some text\r\n" % s
+            text = head + line * max(1, (size - len(head)) // len(line))
             cut = rng.choice([0, 1, 9, len(text) // 2, len(text) - 1, len(text)] + [rng.randrange(len(text) + 1) for _ in range(4)])
             self.body[s] = (text[:cut], text[cut:] + ".\r\n")
         return self.plan[s]
@@ -178,7 +175,7 @@ class Concretiser:
         return out
 
 
-def behaviours_from(run, proto, abstract, label, hub="detached", isolate=False):
+def behaviours_from(run, proto, abstract, label, hub="detached"):
     out = []
     for i, seq in enumerate(abstract):
         rng = random.Random("%d/%s/%s/%d" % (run.seed, proto, label, i))
@@ -190,7 +187,9 @@ def behaviours_from(run, proto, abstract, label, hub="detached", isolate=False):
                 mb = conc.plan[s]["mbs"][0]
                 init.append({"mb": mb, "subjs": ["%s-%d" % (mb, k) for k in (1, 2, 3)], "size": rng.choice([80, 900, 12000])})
         out.append({"id": "%s-%s-%d" % (proto, label, i), "proto": proto, "store": ["mem", "file"][(i + run.seed) % 2], "hub": hub, "names": BOXES,
-                    "init": init, "steps": steps, "isolate": isolate, "_abs": seq})
+                    "init": init, "steps": steps, "_abs": seq,
+                    # a schedule that can kill the process runs in a child process of the driver; its death is an event of the trace
+                    "isolate": hub == "wired" or any(a["c"] == "accept" for a in seq)})
     return out
 
 
@@ -221,7 +220,12 @@ def explain(proto, r):
     if a == "end":
         return "every session had ended but Drain had not returned 5 s later (drained=%s)" % ev.get("drained")
     if a == "died":
-        return "the server process died during the graceful shutdown: %s" % ev.get("sig")
+        why = ""
+        if "WaitGroup" in (ev.get("sig") or ""):
+            why = " (the SMTP session goroutine of a connection accepted before the request called wg.Add(1) while Drain's wg.Wait() was returning)"
+        elif "closed channel" in (ev.get("sig") or ""):
+            why = " (the hub closed its operation queue on cancel; the after-event of a message stored / removed by a still open session was then dispatched to it)"
+        return "the server process died during the graceful shutdown: %s%s" % (ev.get("sig"), why)
     return "not allowed by the Lifecycle contract"
 
 
@@ -333,7 +337,7 @@ def c19(run, args):
     predicted = predicted_counterexample(run)
 
     # (2) schedules
-    beh, samples, distinct = [], [], set()
+    beh, samples, distinct, complete = [], [], set(), True
     for proto in ("smtp", "pop3"):
         one = run.generate("GenLifecycle", gen_cfg(proto, "bfs", nsess=(1,), depth=6, maxcont=2, maxnew=1), workers=4)
         two = run.generate("GenLifecycle", gen_cfg(proto, "bfs", nsess=(2,), depth=4 if quick else 5, maxcont=1, maxnew=1), workers=4)
@@ -341,8 +345,9 @@ def c19(run, args):
         if not (one and two and three):
             raise Inconclusive("no schedules generated for " + proto)
         n2, n3 = len(two), len(three)
-        two = sample(rng, two, 450 if quick else 9000, has_window)
-        three = sample(rng, three, 150 if quick else 4000, has_window)
+        two = sample(rng, two, 450 if quick else 14000, has_window)
+        three = sample(rng, three, 150 if quick else 9000, has_window)
+        complete = complete and len(two) == n2 and len(three) == n3
         run.log("%s schedules: 1 session %d (all), 2 sessions %d of %d, 3 sessions %d of %d" % (proto, len(one), len(two), n2, len(three), n3))
         run.cov["schedules_%s" % proto] = {"1": [len(one), len(one)], "2": [len(two), n2], "3": [len(three), n3]}
         for lab, seqs in (("one", one), ("two", two), ("three", three)):
@@ -354,7 +359,7 @@ def c19(run, args):
     if not any(b["proto"] == "smtp" and has_window(b["_abs"]) for b in beh):
         raise Inconclusive("the predicted counterexample's schedule (Drain called while an accepted session is held) is not among the generated schedules")
     run.cov["distinct_nontrivial"] += len(distinct)
-    run.cov["exhaustive"] = True
+    run.cov["exhaustive"] = complete     # only when every generated schedule was replayed (the 1-session sets always are)
     run.cov["samples"] = samples
     run.cov["predicted_counterexample"] = predicted
     replay_and_validate(run, vh, beh, "c19")
@@ -374,7 +379,7 @@ def c19(run, args):
         wired.append([{"c": "open", "s": 1, "park": st[1]}, {"c": "cancel"}, {"c": "drain"}, {"c": "hangup", "s": 1}])   # control: nothing stored or removed after the request
     wb = []
     for proto in ("smtp", "pop3"):
-        wb += behaviours_from(run, proto, [s for s in wired if s[0]["park"] in STAGES[proto]], "wired", hub="wired", isolate=True)
+        wb += behaviours_from(run, proto, [s for s in wired if s[0]["park"] in STAGES[proto]], "wired", hub="wired")
     run.cov["distinct_nontrivial"] += len(wb)
     replay_and_validate(run, vh, wb, "c19w")
 
@@ -389,8 +394,8 @@ def c19(run, args):
                        "(before the session registers with the wait group), then the shutdown request (ctx cancel; the driver waits for Start, the hub loop, the scanner's "
                        "Join and a running DoScan to return), then every interleaving to the stated depth of {Drain called, client continues, client finishes and QUITs, "
                        "client disconnects, gate released, new connection attempt}, closed by a suffix that releases/finishes/drains what is pending.  1 session: all complete "
-                       "schedules; 2 and 3 sessions: BFS to depth 4/3 (quick) or 5/4 (thorough), a seed-chosen sample of which is replayed (every third one with Drain called "
-                       "while a session is held at the gate).  Each schedule is played on a real smtp.Server / pop3.Server on a loopback port with real TCP clients, memory and "
+                       "schedules; 2 and 3 sessions: BFS to depth 4/3 (quick) or 5/4 (thorough), of which a seed-chosen sample is replayed (quick 450/150 per protocol, "
+                       "thorough up to 14000/9000 = all 2-session schedules; a third of each sample has Drain called while a session is held at the gate; counts in schedules_smtp/_pop3).  Each schedule is played on a real smtp.Server / pop3.Server on a loopback port with real TCP clients, memory and "
                        "file stores alternating.  TLC validates against Lifecycle.tla: connects after Start returned are refused; every exchange of an open session "
                        "after the request is answered positively; the store shows the acknowledged message for each recipient and exactly the marked messages gone after "
                        "QUIT; Drain has returned 5 s after the last session ended; and no client step that began after the `drained' event (one counter under one mutex) "
@@ -401,5 +406,5 @@ def c19(run, args):
                         "what a disconnect in the middle of DATA or with deletions pending does to the store is left to C03/C13 (those mailboxes are no longer compared)",
                         "a connection attempt after shutdown counts as served only if this server's banner (unique domain) arrives",
                         "the hub is wired to the store's extension host only in the dedicated group (3); elsewhere it runs on a host of its own so that schedules are not all cut short by the same crash",
-                        "one recipient domain, ordinary addresses; TLS not exercised; server idle timeout 60 s (never reached)",
+                        "one recipient domain, ordinary addresses; TLS not exercised; server idle timeout 600 s (never reached)",
                         "2- and 3-session schedules are sampled by seed from the complete BFS set; the LifecycleImpl model is a prediction, never the judge"]
